@@ -55,6 +55,8 @@ def run(tier, seed, work, replay):
         cases.append({"pref": "p256", "mode": "password_noed", "agent": False, "agentmode": "none"})
         # a user whose name makes the agent labels long (keymaster-ed25519-<28 characters>)
         cases.append({"pref": "p256", "mode": "password", "agent": True, "agentmode": "ok", "user": "alice.with.quite.a.long.name"})
+        # a file prefix of the site's own, with capitals (-fileprefix / the configuration file): the labels carry it as it is
+        cases.append({"pref": "p256", "mode": "password", "agent": True, "agentmode": "ok", "prefix": "Corp-SSO"})
         cp = work.path("cases.ndjson")
         E.write_ndjson(cp, cases)
         epath, _ = E.run_harness(cbin, PROP, work, cases=cp, env={"VERIF_SERVERS": ready}, cwd=os.path.join(E.REPO, "cmd/keymaster"), timeout=5400)
